@@ -21,7 +21,8 @@ TIME_SLACK = float(os.environ.get('VERIF_TIME_SLACK', '4'))
 CASE_LIMIT = int(os.environ.get('VERIF_CASE_LIMIT', '300'))     # seconds one case may take before it counts as "did not return"
 
 
-class CaseTimeout(Exception):
+class CaseTimeout(BaseException):
+    """not an Exception: the adapters' own `except Exception` handlers must not swallow it"""
     pass
 
 
@@ -29,20 +30,34 @@ def _alarm(signum, frame):
     raise CaseTimeout()
 
 
+class time_limit:
+    """raise CaseTimeout in the running code after `seconds`, and again every 5 s after that (in case the first one is
+    caught by a bare `except:` in the code under test)"""
+    def __init__(self, seconds): self.seconds = seconds
+    def __enter__(self):
+        import signal
+        self.old = signal.signal(signal.SIGALRM, _alarm)
+        signal.setitimer(signal.ITIMER_REAL, self.seconds, 5.0)
+    def __exit__(self, *a):
+        import signal
+        signal.setitimer(signal.ITIMER_REAL, 0)
+        signal.signal(signal.SIGALRM, self.old)
+        return False
+
+
+def no_return(what):
+    return ImplResult(model_in=[], outs=[], failures=[
+        {'signature': 'no-return', 'op_index': None,
+         'what': f'the implementation did not return within {CASE_LIMIT} s {what}'}], tags=['no-return'])
+
+
 def run_case(p, case):
     """run one case on the real code under a time limit; a case that does not return is a finding, not a hang"""
-    import signal
-    old = signal.signal(signal.SIGALRM, _alarm)
-    signal.alarm(CASE_LIMIT)
     try:
-        return p.run_impl(case)
+        with time_limit(CASE_LIMIT):
+            return p.run_impl(case)
     except CaseTimeout:
-        res = ImplResult(model_in=[], outs=[], failures=[
-            {'signature': 'no-return', 'op_index': None,
-             'what': f'the implementation did not return within {CASE_LIMIT} s on this input (ops: {case.ops[:6]}…)'}], tags=['no-return'])
-        return res
-    finally:
-        signal.alarm(0); signal.signal(signal.SIGALRM, old)
+        return no_return(f'on this input (ops: {case.ops[:6]}…)')
 
 
 def load_plugin(pid):
@@ -70,13 +85,31 @@ def _worker(args):
         rng = random.Random(seed * 1000003 + index)
         out = []
         truncated = False
-        for case in p.generate(rng, tier, index, nworkers):
+        stuck = 0
+        gen = iter(p.generate(rng, tier, index, nworkers))
+        while True:
+            try:
+                with time_limit(CASE_LIMIT):
+                    case = next(gen)
+            except StopIteration:
+                break
+            except CaseTimeout:
+                # adaptive generators run the real code: a regression that loops there is a finding too
+                out.append((Case(['<the case generator, which drives the real code, did not return>'], {}),
+                            no_return('while the next case was being generated (adaptive generator drives the real code)')))
+                truncated = True
+                break
             try:
                 res = run_case(p, case)
             except Exception as e:   # adapter crashed on this case
                 res = ImplResult(model_in=[], outs=[], failures=[], tags=['adapter-crash'])
                 res.crash = ''.join(traceback.format_exception_only(type(e), e))[-500:] + traceback.format_exc()[-1500:]
             out.append((case, res))
+            if 'no-return' in (res.tags or []):
+                stuck += 1
+                if stuck >= 3:
+                    # three cases did not return: the finding is made, running on would only burn the time limit per case
+                    truncated = True; break
             if time.time() > deadline:
                 truncated = True; break
         return ('ok', out, truncated)
@@ -93,7 +126,9 @@ def classify(p, case, res, model_out):
     fails = []
     if hasattr(p, 'filter_failures'):
         n0 = len(res.failures)
-        res.failures = p.filter_failures(res, model_out)
+        own = [f for f in res.failures if f.get('signature') == 'no-return']      # the framework's, not the plugin's
+        res.failures = [f for f in res.failures if f.get('signature') != 'no-return']
+        res.failures = own + list(p.filter_failures(res, model_out))
         if len(res.failures) < n0:
             # oracle failures the plugin set aside (e.g. the model says the history left the stated preconditions):
             # counted, so the evidence shows how much was not judged
@@ -158,7 +193,13 @@ def main(argv=None):
                 print(f'VIOLATION property={pid} replay={a.replay} no-failing-input-found'); return 1
             print('the proof obligations check on the current tree'); return 0
         case = Case.from_json(d['case'])
-        res, mo, fails = run_one(p, case)
+        try:
+            res, mo, fails = run_one(p, case)
+        except Exception as e:
+            print('FAILS [disagree] adapter-crash: the adapter could not run this case on the implementation: '
+                  + ''.join(traceback.format_exception_only(type(e), e)).strip()[-400:])
+            print(f'VIOLATION property={pid} replay={a.replay} no-failing-input-found')
+            return 1
         for i, l in enumerate(res.model_in):
             print(f'  {l}\n     impl : {res.outs[i] if i < len(res.outs) else None}\n     model: {mo[i] if i < len(mo) else None}')
         if fails:
@@ -202,9 +243,12 @@ def main(argv=None):
         if 'witness' in k:
             c = Case.from_json(k['witness']); c.meta['known'] = k['signature']
             pre_cases.append(c)
+    stuck0 = 0
     for c in pre_cases:
+        if stuck0 >= 3: break
         try:
             executed.append((c, run_case(p, c)))
+            if 'no-return' in (executed[-1][1].tags or []): stuck0 += 1
         except Exception as e:
             r = ImplResult([], [], [], ['adapter-crash']); r.crash = traceback.format_exc()[-2000:]
             executed.append((c, r))
@@ -232,6 +276,21 @@ def main(argv=None):
             log(r[1]); return 2
         executed.extend(r[1])
         if r[2]: truncated_workers += 1
+    # a case that did not return is run once more, alone and with twice the limit: under heavy load, or while numba
+    # compiles on a cold cache, a slow case is not a looping one
+    n_stuck = sum(1 for c, r in executed if 'no-return' in (r.tags or []))
+    for idx, (c, r) in enumerate(executed):
+        if n_stuck > 2: break        # many cases did not return: not a load artefact
+        if any(f.get('signature') == 'no-return' for f in (r.failures or [])) and c.ops and not c.ops[0].startswith('<'):
+            try:
+                with time_limit(2 * CASE_LIMIT):
+                    r2 = p.run_impl(c)
+                r2.tags = list(r2.tags) + ['no-return:not-reproduced-on-second-run']
+                executed[idx] = (c, r2)
+            except CaseTimeout:
+                pass
+            except Exception:
+                pass
     for c, r in executed:
         if getattr(r, 'crash', None):
             crashed.append((c, r.crash))
@@ -251,9 +310,9 @@ def main(argv=None):
     hist, nontrivial, lines, disagreements, oracle_failures = {}, set(), 0, 0, 0
     for (case, res), mo in zip(executed, model_outs):
         lines += len(res.model_in)
-        for t in res.tags: hist[t] = hist.get(t, 0) + 1
         if res.nontrivial is not None: nontrivial.add(res.nontrivial)
         fs = classify(p, case, res, mo)
+        for t in res.tags: hist[t] = hist.get(t, 0) + 1
         for f in fs:
             if f.kind == 'disagree': disagreements += 1
             else: oracle_failures += 1
@@ -312,9 +371,13 @@ def main(argv=None):
             except Exception:
                 small = case.ops
             case = Case(small, dict(case.meta))
-            res, mo, fs = run_one(p, case)
-            payload.update({'case': case.to_json(), 'impl_out': res.outs, 'model_out': mo,
-                            'failures_on_replay': [f.what for f in fs]})
+            try:
+                res, mo, fs = run_one(p, case)
+                payload.update({'case': case.to_json(), 'impl_out': res.outs, 'model_out': mo,
+                                'failures_on_replay': [f.what for f in fs]})
+            except Exception as e:
+                # the adapter cannot run this case on the implementation (that is what is being reported)
+                payload.update({'case': case.to_json(), 'adapter_exception': ''.join(traceback.format_exception_only(type(e), e))[-600:]})
             if kind == 'disagree':
                 # the correspondence no longer checks: search the real code for a property failure
                 found = None
@@ -377,9 +440,9 @@ def main(argv=None):
           f'cases={len(executed)} lines={lines} nontrivial={len(nontrivial)} disagreements={disagreements} '
           f'oracle_failures={oracle_failures} violations={violations} wall={time.time() - t0:.1f}s')
     if violations: return 1
-    if truncated_workers and nominal and len(executed) < 0.1 * nominal:
-        print(f'harness error: only {len(executed)} of about {nominal} nominal cases ran within the time budget; '
-              f'inconclusive (raise VERIF_TIME_SLACK on a slow machine)', file=sys.stderr)
+    if truncated_workers * 2 > jobs:
+        print(f'harness error: the time budget cut the run short in {truncated_workers} of {jobs} shares of the case space '
+              f'({len(executed)} cases executed); inconclusive (raise VERIF_TIME_SLACK on a slow machine)', file=sys.stderr)
         return 2
     return 0
 
